@@ -283,7 +283,7 @@ func (w *World) Run(x *simkit.Ctx) {
 	// exposed to: a stake is on the chain; the next block carries a producer vote; a copy of that
 	// block with a wrong state root arrives first (executed, votes applied in memory, then refused),
 	// then the genuine block.
-	if prop == "C15" && len(script) == 0 && x.CfgInt("govopening", func(r *simkit.Rng) int { return r.Pick(1, 1) }) == 1 {
+	if (prop == "C15" || prop == "C03") && len(script) == 0 && x.CfgInt("govopening", func(r *simkit.Rng) int { return r.Pick(1, 1) }) == 1 {
 		kind := x.CfgInt("govkind", func(r *simkit.Rng) int { return []int{fStateRoot, fReceiptRoot}[r.Intn(2)] })
 		script = []*simkit.Step{
 			{Op: "tx", K: []int{1, 0, 1, 3}, V: 1}, {Op: "build"}, {Op: "deliver", A: 0},
@@ -304,7 +304,7 @@ func (w *World) Run(x *simkit.Ctx) {
 		switch r.Pick(16, 22, 5, 30, 8*forge, 2, 3) {
 		case 0: // tx to a subset of builders
 			kind := r.Pick(8, 1, 1)
-			if prop == "C15" {
+			if prop == "C15" || prop == "C03" {
 				kind = r.Pick(4, 1, 0, 4, 4)
 			}
 			return &simkit.Step{Op: "tx", K: []int{1 + r.Intn(1<<uint(nb)-1), r.Intn(nacc), r.Intn(nacc), kind}, V: int64(1 + r.Intn(900))}
@@ -521,7 +521,10 @@ func (e *env) doForge(tip, back, kind int) {
 				t := simnode.SignedTx(e.net.Accounts[0], 1, e.net.Accounts[1%len(e.net.Accounts)].Addr, big.NewInt(7), types.TxType_TRANSFER, nil, e.builders[0].ChainIDHash(), 0)
 				t.Body.Account = e.net.Accounts[1%len(e.net.Accounts)].Addr
 				t.Hash = t.CalculateTxHash()
-				c.Body.Txs = append(c.Body.Txs, t)
+				// anywhere in the body: first, in the middle or last (what is behind the forged
+				// transaction is still queued in the signature verifier when the block is refused)
+				at := (tip + 2*back + len(seg)) % (len(c.Body.Txs) + 1)
+				c.Body.Txs = append(c.Body.Txs[:at:at], append([]*types.Tx{t}, c.Body.Txs[at:]...)...)
 				c.Header.TxsRootHash = types.CalculateTxsRootHash(c.Body.Txs)
 			}
 		} else {
@@ -584,7 +587,7 @@ func (e *env) doRestart() {
 }
 
 func (e *env) propOr(p string) string {
-	if e.prop == "C05" || e.prop == "C06" || e.prop == "C07" || e.prop == "C18" || e.prop == "C19" || e.prop == "C03" || e.prop == "C17" || e.prop == "C15" {
+	if e.prop == "C05" || e.prop == "C06" || e.prop == "C07" || e.prop == "C18" || e.prop == "C19" || e.prop == "C03" || e.prop == "C04" || e.prop == "C17" || e.prop == "C15" {
 		return e.prop
 	}
 	return p
@@ -697,7 +700,7 @@ func (e *env) doDeliver(l int) {
 			return
 		}
 	}
-	if e.prop == "C15" {
+	if e.prop == "C15" || e.prop == "C03" {
 		e.checkVprMemory(l, err)
 		if x.Failed() {
 			return
